@@ -55,6 +55,10 @@ pub struct NodeCfg {
     /// latency of the scans a start-up performs (keyspace list, metadata), virtual ms
     #[serde(default)]
     pub storage_scan_latency_max_ms: u64,
+    /// document reads (get / multi_get, numbered from 1 per node) that fail: a peer's fetch of
+    /// documents during repair is answered with an error
+    #[serde(default)]
+    pub storage_read_faults: Vec<u64>,
 }
 
 #[derive(Serialize, Deserialize, Clone, Debug)]
@@ -197,6 +201,7 @@ impl<'a> Cluster<'a> {
                 st.faults = n.storage_faults.iter().map(|(c, k)| (*c, FaultKind::FailAfter(*k))).collect();
                 st.latency_max_ms = n.storage_latency_max_ms;
                 st.scan_latency_max_ms = n.storage_scan_latency_max_ms;
+                st.read_faults = n.storage_read_faults.iter().copied().collect();
                 st.latency_seed = mix(cfg.net_seed, n.id as u64);
             }
             stores.insert(n.id, s);
